@@ -149,6 +149,28 @@ def run(run):
         for cls, (stream, what, out) in res["viol"].items():
             if cls not in classes or len(stream) < len(classes[cls][0]):
                 classes[cls] = (stream, what, out)
+    # (a2) element-name sweep: every (omissible tag, neighbour) pair with the neighbour ranging over ALL element names of
+    #      the standard (start, end and - for void names - empty tags), alone and after each end tag that matters as "previous"
+    from checks import treewords as tw
+    A = alphabets
+    void = frozenset("area base br col embed hr img input link meta param source track wbr".split())
+    sweep = []
+    for name in tw.ALL_NAMES:
+        nexts = [A.st(name), A.et(name)] + ([A.empty(name)] if name in void else [])
+        for om in A.OMISSIBLE:
+            for tok in (A.st(om), A.et(om)):
+                for nxt in nexts:
+                    sweep.append([tok, nxt])
+                    if tok["type"] == "StartTag" and om in ("tbody", "colgroup"):
+                        for pv in ("tbody", "thead", "tfoot", "colgroup"):
+                            sweep.append([A.et(pv), tok, nxt])
+    for st_ in sweep:
+        run.add("evaluations")
+        problems, out = judge(st_)
+        for what, cls, i in problems:
+            if cls not in classes or len(st_) < len(classes[cls][0]):
+                classes[cls] = ([tok_json(t) for t in st_], what, [tok_json(t) for t in out])
+    run.set("name_sweep_streams", len(sweep))
     for cls, (stream, what, out) in sorted(classes.items()):
         run.violation(engine.Violation(H, {}, stream, "only omissible tags removed", out, what, cls))
     # (b) parse-equivalence on generated conforming documents (shared generator with C07)
